@@ -10,6 +10,7 @@ Oracles
   * a Path is compared against the plain tuple of its steps for len, indexing,
     slicing, concatenation, values(), ==, startswith and evaluation split.
 """
+import sys
 import pickle
 import itertools
 
@@ -728,6 +729,45 @@ def equality_follows_the_steps(col, rng):
                         col.violation('C18/path-eq-disagrees-with-startswith-or-slices', '%r == %r, but startswith gives %r and the full slice compares %r' % (pa, pb, sw, sl), None)
 
 
+def repr_from_several_threads(col):
+    """repr(x) is a function of x: expressions that share a literal object, rendered by several threads at once, print what they print
+    when rendered alone"""
+    import threading
+    shared = ['key', ('a', 1), {'k': [1, 2, 3], 'j': ('x', 'y')}, 'another string', 3.5, None] * 3
+    shared_t = tuple(shared)
+    exprs = [T[shared_t], T.f(shared), Path('seg', T[shared_t]), T['a'][shared_t].b(shared, k=shared_t), S[shared_t], Path(shared_t, 'z'), T.f([shared, shared])]
+    alone = [repr(e) for e in exprs]
+    bad = []
+    old = sys.getswitchinterval()
+    sys.setswitchinterval(1e-6)
+    try:
+        def work(offset):
+            for n in range(250):
+                i = (n + offset) % len(exprs)
+                try:
+                    r = repr(exprs[i])
+                except Exception as e:
+                    r = 'raised %r' % (e,)
+                if r != alone[i] and len(bad) < 5:
+                    bad.append((i, r))
+        threads = [threading.Thread(target=work, args=(k,), daemon=True) for k in range(4)]
+        for th in threads:
+            th.start()
+        for th in threads:
+            th.join(60)
+        hung = any(th.is_alive() for th in threads)
+    finally:
+        sys.setswitchinterval(old)
+    col.case(('repr-from-threads',), True)
+    col.count('eval_repr', 1000)
+    col.count('reprs_rendered_by_concurrent_threads', 1000)
+    if hung:
+        col.fail_inconclusive('the threads rendering reprs did not finish within 60 s')
+    for i, r in bad[:3]:
+        col.violation('C18/repr-differs-when-rendered-by-several-threads', 'repr of expression #%d rendered while other threads render expressions sharing its literal: %s ; '
+                      'alone: %s' % (i, short(r, 200), short(alone[i], 200)), None)
+
+
 def systematic(col, rng):
     """every literal kind alone under each root and position"""
     lits = []
@@ -753,7 +793,8 @@ def systematic(col, rng):
     for txt in ['a', 'a.b', 'a.*.b', '**', '*.*', 'a.**.b.*', '0.1', '']:
         check_roundtrip(col, Path.from_text(txt), 'from_text %r' % txt, ('from_text', txt))
     # strings and attribute names that read like the roots are ordinary strings / names
-    for nm in ('T', 'S', 'A', 'Path', 'T.a', 'S.x'):
+    # ... and so are names and strings that coincide with the letters the library uses internally for its kinds of step
+    for nm in ('T', 'S', 'A', 'Path', 'T.a', 'S.x', 'P', 'x', 'X', '_', '.', '[', '(', '+', '*', '#', ':', '~'):
         forms = [('[', T[nm]), ('.[', T.a[nm]), ('(', T.f(nm)), ('(kw', T.f(k=nm)), ('P', Path(nm)), ('PP', Path('a', nm, 'z')), ('S[', S[nm]), ('tuple[', T[(nm, 1)]),
                  ('(list', T.f([nm, {'k': nm}]))]
         if nm.isidentifier():
@@ -792,6 +833,7 @@ def run(ctx):
     if ctx.shard == 0:
         systematic(col, rng)
         equality_follows_the_steps(col, rng)
+        repr_from_several_threads(col)
     split_law_along_valid_paths(col, rng, ctx.n(25, 150))
     col.require('split_evaluations_along_valid_paths', 500)
     near_misses_are_not_equal(col, rng, ctx.n(400, 3000))
